@@ -196,8 +196,14 @@ namespace
             for (auto it = cx.rbegin(); it != cx.rend(); ++it) { if (k == 0 || static_cast<bool>(*it) != m[k - 1]) viol("invariant", "iter", who + "reverse iteration differs"); --k; }
             if (k != 0) viol("invariant", "iter", who + "reverse iteration length");
             k = m.size();
-            for (auto it = x.crbegin(); it != x.crend(); ++it) --k;
+            for (auto it = x.crbegin(); it != x.crend(); ++it) { if (k == 0 || static_cast<bool>(*it) != m[k - 1]) viol("invariant", "iter", who + "crbegin/crend iteration differs"); --k; }
             if (k != 0) viol("invariant", "iter", who + "crbegin/crend length");
+            k = m.size();
+            for (auto it = x.rbegin(); it != x.rend(); ++it) { if (k == 0 || static_cast<bool>(*it) != m[k - 1]) viol("invariant", "iter", who + "non-const reverse iteration differs"); --k; }
+            if (k != 0) viol("invariant", "iter", who + "non-const reverse iteration length");
+            k = 0;
+            for (auto it = x.cbegin(); it != x.cend(); ++it, ++k) if (k >= m.size() || static_cast<bool>(*it) != m[k]) viol("invariant", "iter", who + "cbegin/cend iteration differs at " + std::to_string(k));
+            if (k != m.size()) viol("invariant", "iter", who + "cbegin/cend length");
             if (cx.count() != ones) viol("invariant", "count", who + "count() == " + std::to_string(cx.count()) + ", model has " + std::to_string(ones) + " ones: " + show(m));
             if (cx.any() != (ones > 0)) viol("invariant", "any", who + "any() wrong for " + show(m));
             if (cx.none() != (ones == 0)) viol("invariant", "none", who + "none() wrong for " + show(m));
